@@ -604,11 +604,13 @@ func (e *kvElection) Stop() error {
 	e.recordTransition(currentState, StateStopped)
 	e.updateIsLeaderMetric()
 
+	e.mu.Unlock()
+
+	// Outside e.mu: the grace-period timer callback holds the handler's lock
+	// while it takes e.mu (becomeFollower), so the opposite order would deadlock.
 	if e.disconnectHandler != nil {
 		e.disconnectHandler.stop()
 	}
-
-	e.mu.Unlock()
 
 	log := e.getLogger()
 	log.Info("election_stopped",
@@ -678,11 +680,13 @@ func (e *kvElection) StopWithContext(ctx context.Context, opts StopOptions) erro
 	e.recordTransition(currentState, StateStopped)
 	e.updateIsLeaderMetric()
 
+	e.mu.Unlock()
+
+	// Outside e.mu: the grace-period timer callback holds the handler's lock
+	// while it takes e.mu (becomeFollower), so the opposite order would deadlock.
 	if e.disconnectHandler != nil {
 		e.disconnectHandler.stop()
 	}
-
-	e.mu.Unlock()
 
 	if e.connectionMonitor != nil {
 		_ = e.connectionMonitor.Stop()
